@@ -23,6 +23,10 @@ func SelfTest(dir string) string {
 	if _, err := os.Stat(dir); err != nil {
 		return "fixture module missing: " + err.Error()
 	}
+	// go/packages resolves the "go" binary through this process's PATH
+	if !strings.HasPrefix(os.Getenv("PATH"), core.GoBin+":") {
+		os.Setenv("PATH", core.GoBin+":"+os.Getenv("PATH"))
+	}
 	env := []string{}
 	for _, e := range os.Environ() {
 		if strings.HasPrefix(e, "PATH=") || strings.HasPrefix(e, "GOWORK=") || strings.HasPrefix(e, "GOFLAGS=") || strings.HasPrefix(e, "GOTOOLCHAIN=") {
